@@ -33,6 +33,14 @@ that parameter: a call inside the anchors that resolves to one of them -  Name(.
 (keyword, or the positional slot of the definition) with a gen/val value: Pass.  A call that omits it, or passes None, lets the callee
 fall back to check_random_state(None) = numpy's GLOBAL generator: PassFresh.  **kwargs is accepted only for self._opt_kwargs (whose
 dict(...) literal is itself a listed Pass site); any other shape fails closed.
+Library callables.  A callee that resolves through the imports of the file to an importable object (scikit-learn, scipy, ConfigSpace,
+deephyper modules outside the anchors) whose SIGNATURE has a random_state / seed / rng parameter owes it in the same way (inspect.signature
+on the imported object): omitted or None = PassFresh.  scipy.stats objects with such a parameter (qmc engines, ...) are generator
+constructors (CtorSeeded / CtorFresh), the others are Dist.  Method names that only random-state-taking methods of the deephyper package
+carry (generate, ...) owe it on every receiver.  A reference to an obligation callable that is not in call position (handed to scipy's
+fmin_l_bfgs_b, stored, ...) is only accepted in the shape  g(f, x, args=(...))  with the random-state slot of f filled by a gen/val element of
+args; any other escape fails closed.
+
 Generators under Parallel.  Tasks built with delayed(f)(...) inside Parallel(...)(...) may run concurrently: a generator expression handed to
 a task (anywhere in its arguments) must be a PER-TASK generator, i.e. a constructor call written in the task's argument list
 (np.random.RandomState(child_seed)), or a child seed.  A shared generator (self.rng, a local rng) handed to the tasks of a
@@ -71,6 +79,10 @@ CTOR_NAMES = {
     "sklearn.utils.check_random_state", "sklearn.utils.validation.check_random_state",
 }
 SEED_KW = {"random_state", "seed", "rng"}
+SEED_TESTS_PY = {"type(random_state)isint", "type(random_state)==int"}
+SEED_TESTS_ANY = {"isinstance(random_state,numbers.Integral)", "isinstance(random_state,(int,np.integer))", "isinstance(random_state,(int,numpy.integer))",
+                  "isinstance(random_state,numbers.Integral)andnotisinstance(random_state,bool)",
+                  "isinstance(random_state,(int,np.integer))andnotisinstance(random_state,bool)"}
 GENERIC_METHODS = {"copy", "__init__", "fit", "get", "update", "run"}   # names that also belong to dicts / arrays / estimators: resolved through the receiver only
 GEN_PARAMS = {"random_state", "rng", "seed"}
 ENV_CALLS = {
@@ -189,7 +201,10 @@ class FileWalk:
                 while head in self.parent and isinstance(self.parent[head], ast.If) and any(head is b for b in self.parent[head].orelse) and len(self.parent[head].orelse) == 1:
                     head = self.parent[head]
                     branch = "else"
-                g = "%s:%s" % (branch, ast.unparse(head.test))
+                test = ast.unparse(head.test)
+                if test.replace(" ", "") in SEED_TESTS_PY | SEED_TESTS_ANY:
+                    test = "<seed test>"   # every recognised spelling of "random_state is an integer" (fact seed_test_accepts_numpy_int says which)
+                g = "%s:%s" % (branch, test)
                 n = head
                 continue
             n = p
@@ -355,6 +370,48 @@ class FileWalk:
                 return self.optimizer_valued(e.func.value, fn, depth + 1)
         return False
 
+    def handed_to_seeded(self, c, fn, busy):
+        """The call is the value of an assignment to a local whose every use is an argument of a call that owes a random state and is handed a
+        seeded one (e.g. GradientBoostingRegressor(...) wrapped by GradientBoostingQuantileRegressor(base_estimator=..., random_state=...))."""
+        p = self.parent.get(c)
+        if not (fn is not None and isinstance(p, ast.Assign) and len(p.targets) == 1 and isinstance(p.targets[0], ast.Name)) or id(c) in busy:
+            return False
+        busy = busy | {id(c)}
+        name = p.targets[0].id
+        uses = [n for n in ast.walk(fn) if isinstance(n, ast.Name) and n.id == name and isinstance(n.ctx, ast.Load)]
+        if not uses:
+            return False
+        for u in uses:
+            q = self.parent.get(u)
+            call = q if isinstance(q, ast.Call) else self.parent.get(q) if isinstance(q, ast.keyword) else None
+            if not (isinstance(call, ast.Call) and call is not c and (u in call.args or any(k.value is u for k in call.keywords))):
+                return False
+            try:
+                if self.resolve_obligation(call, fn) is None or self.classify_call(call) != "Pass":
+                    return False
+            except Closed:
+                return False
+        return True
+
+    def seeded_kwargs_dict(self, x, fn):
+        """**d with d a local of this function: every assignment of d is a dict(...) call that carries a seeded random_state / seed / rng keyword
+        (each of them is a listed Pass site) or an empty dict literal, and at least one carries it (flow-insensitive)."""
+        if not (isinstance(x, ast.Name) and fn is not None and x.id not in self.params_of(fn)):
+            return False
+        vals = self.local_assignments(fn, x.id)
+        seeded = 0
+        for v in vals:
+            if isinstance(v, ast.Call) and dotted(v.func) == "dict" and not v.args:
+                ks = {k.arg: self.kind(k.value, fn) for k in v.keywords if k.arg in SEED_KW}
+                if ks and all(q in ("gen", "val") for q in ks.values()):
+                    seeded += 1
+                    continue
+                return False
+            if isinstance(v, ast.Dict) and not v.keys:
+                continue
+            return False
+        return seeded > 0
+
     def shadowed(self, name, fn):
         return fn is not None and (name in self.params_of(fn) or bool(self.local_assignments(fn, name)))
 
@@ -371,7 +428,9 @@ class FileWalk:
         if isinstance(f, ast.Name):
             if self.shadowed(f.id, fn):
                 return None
-            return self.defs["cls"].get(f.id) or self.defs["func"].get(f.id)
+            r = self.defs["cls"].get(f.id) or self.defs["func"].get(f.id)
+            if r is not None:
+                return r
         if isinstance(f, ast.Attribute):
             recv, m = f.value, f.attr
             if isinstance(recv, ast.Call) and dotted(recv.func) == "super":
@@ -398,7 +457,99 @@ class FileWalk:
             cands = [r for (c0, m0), r in self.defs["meth"].items() if m0 == m]
             if cands and m not in RNG_METHODS:
                 return cands[0]
+            if m in self.defs.get("pkg_methods", {}) and m not in RNG_METHODS:
+                return self.defs["pkg_methods"][m]
+        # a library callable reached through the imports of the file whose signature takes a random state
+        d = dotted(f)
+        if "(" not in d and "[" not in d and "<" not in d and not self.shadowed(d.split(".")[0], fn):
+            fq = self.fq(d)
+            if fq and fq not in CTOR_NAMES and not fq.startswith(("numpy.random", "random.", "scipy.stats.")):
+                return self.library_signature(fq)
         return None
+
+    _libcache = {}
+
+    def is_distribution_class(self, fq):
+        """scipy.stats distribution classes (rv_discrete, rv_continuous, rv_histogram): their `seed` is only the default of .rvs(), and every
+        .rvs( site is judged on its own (Global without random_state=)."""
+        try:
+            import scipy.stats
+            from scipy.stats._distn_infrastructure import rv_generic
+
+            obj = scipy.stats
+            for a in fq.split(".")[2:]:
+                obj = getattr(obj, a)
+            return isinstance(obj, type) and issubclass(obj, rv_generic)
+        except Exception:
+            return False
+
+    def library_signature(self, fq):
+        """{'pos', 'what'} if the importable object fq takes random_state / seed / rng, else None (also when it cannot be imported / inspected)."""
+        import importlib
+        import inspect
+
+        if fq.startswith("."):   # relative import: resolve against the package of the file
+            pkg = ["deephyper"] + self.rel.split("/")[:-1]
+            up = len(fq) - len(fq.lstrip("."))
+            fq = ".".join(pkg[:len(pkg) - (up - 1)] + [fq.lstrip(".")])
+        if fq in FileWalk._libcache:
+            return FileWalk._libcache[fq]
+        res = None
+        parts = fq.split(".")
+        obj = None
+        for i in range(len(parts), 0, -1):
+            try:
+                obj = importlib.import_module(".".join(parts[:i]))
+                for a in parts[i:]:
+                    obj = getattr(obj, a)
+                break
+            except Exception:
+                obj = None
+        if obj is not None and callable(obj):
+            try:
+                ps = list(inspect.signature(obj).parameters.values())
+                for i, q in enumerate(ps):
+                    if q.name in GEN_PARAMS:
+                        res = {"pos": i if q.kind in (q.POSITIONAL_ONLY, q.POSITIONAL_OR_KEYWORD) else None, "what": fq}
+                        break
+            except (TypeError, ValueError):
+                res = None
+        FileWalk._libcache[fq] = res
+        return res
+
+    def check_escapes(self):
+        """References to obligation callables that are not in call position."""
+        for n in ast.walk(self.tree):
+            if not isinstance(n, (ast.Name, ast.Attribute)) or not isinstance(getattr(n, "ctx", None), ast.Load):
+                continue
+            p = self.parent.get(n)
+            if isinstance(p, ast.Call) and p.func is n:
+                continue
+            if isinstance(p, ast.Attribute):
+                continue                                     # part of a longer dotted name
+            fn = self.inner_function(n)
+            target = None
+            if isinstance(n, ast.Name) and not self.shadowed(n.id, fn):
+                target = self.defs["func"].get(n.id) or (self.defs["cls"].get(n.id) if n.id in self.defs["cls"] else None)
+                if target is not None and n.id in self.defs["cls"]:
+                    # classes are legitimately referenced (isinstance, tables of classes, annotations)
+                    continue
+            elif isinstance(n, ast.Attribute) and isinstance(n.value, ast.Name) and n.value.id == "self":
+                target = self.class_defines(self.enclosing_class(n), n.attr)
+            if target is None:
+                continue
+            if isinstance(p, ast.Call) and isinstance(p.func, ast.Call) and dotted(p.func.func).split(".")[-1] == "delayed" and p.func.args and p.func.args[0] is n:
+                continue                                     # delayed(f)(...): judged as a call of f
+            if isinstance(p, ast.Call) and dotted(p.func).split(".")[-1] == "delayed" and n in p.args:
+                continue
+            # g(f, x, args=(...)) : scipy calls f(x, *args)
+            if isinstance(p, ast.Call) and n in p.args:
+                tup = [k.value for k in p.keywords if k.arg == "args"]
+                if len(tup) == 1 and isinstance(tup[0], ast.Tuple) and target["pos"] is not None and target["pos"] - 1 < len(tup[0].elts) and target["pos"] >= 1:
+                    if self.kind(tup[0].elts[target["pos"] - 1], fn) in ("gen", "val"):
+                        continue
+                    raise Closed("%s:%d: %s handed over with args=(...) whose random-state slot is not seeded" % (self.rel, n.lineno, ast.unparse(n)))
+            raise Closed("%s:%d: the callable %s (takes a random state) escapes as a value: %s" % (self.rel, n.lineno, ast.unparse(n), ast.unparse(p)[:80] if p is not None else ""))
 
     # ---------- Parallel ----------
     def parallel_of(self, c):
@@ -509,6 +660,14 @@ class FileWalk:
         if f and f.startswith("scipy.stats."):
             if last == "rvs":
                 return "Seeded" if any(v in ("gen", "val") for v in seedkw.values()) else "Global"
+            lib = None if self.is_distribution_class(f) else self.library_signature(f)
+            if lib is not None:      # an object of scipy.stats that takes a seed (qmc engines, ...): a generator constructor
+                vals = list(seedkw.values()) or ([argkinds[lib["pos"]]] if lib["pos"] is not None and lib["pos"] < len(argkinds) else [])
+                if vals and all(v in ("gen", "val") for v in vals):
+                    return "CtorSeeded"
+                if not vals or all(v in ("none", "global", "env") for v in vals):
+                    return "CtorFresh"
+                raise Closed("scipy.stats generator with a seed of unknown origin")
             return "Dist"
         if f and (f.startswith("numpy.random.") or f == "numpy.random" or f.startswith("random.")):
             return "Global"
@@ -563,7 +722,11 @@ class FileWalk:
                 if stars:
                     if all(dotted(x) == "self._opt_kwargs" for x in stars) and self.defs.get("opt_kwargs_has_random_state"):
                         return "Pass"
+                    if all(self.seeded_kwargs_dict(x, fn) for x in stars):
+                        return "Pass"
                     raise Closed("**kwargs in a call that owes a random state")
+                if self.handed_to_seeded(c, fn, set()):
+                    return "Pass"    # an unseeded component whose only use is to be wrapped by a seeded one (which sets its random state)
                 return "PassFresh"   # omitted: the callee falls back to the global generator
         if supplied:
             vs = supplied
@@ -591,7 +754,9 @@ class FileWalk:
             if isinstance(e.func, ast.Attribute) and e.func.attr in ("union", "intersection", "difference", "symmetric_difference") and self.is_set_valued(e.func.value):
                 return True
         if isinstance(e, ast.BinOp) and isinstance(e.op, (ast.Sub, ast.BitOr, ast.BitAnd, ast.BitXor)):
-            return self.is_set_valued(e.left) or self.is_set_valued(e.right)
+            def view(x):   # d.keys() / d.items(): set algebra on dictionary views yields a set
+                return isinstance(x, ast.Call) and isinstance(x.func, ast.Attribute) and x.func.attr in ("keys", "items") and not x.args
+            return self.is_set_valued(e.left) or self.is_set_valued(e.right) or view(e.left) or view(e.right)
         return False
 
     def in_logging_call(self, node):
@@ -767,6 +932,29 @@ def collect_defs(trees):
     return defs
 
 
+def package_methods(base):
+    """Method names that, in the whole deephyper package, are only carried by methods taking random_state / seed / rng (and are not generic)."""
+    import glob as _glob
+
+    take, all_names = {}, {}
+    for f in _glob.glob(os.path.join(base, "**", "*.py"), recursive=True):
+        try:
+            t = ast.parse(open(f).read())
+        except SyntaxError:
+            continue
+        for n in ast.walk(t):
+            if isinstance(n, ast.ClassDef):
+                for m in n.body:
+                    if isinstance(m, (ast.FunctionDef, ast.AsyncFunctionDef)):
+                        names = [a.arg for a in m.args.posonlyargs + m.args.args][1:]
+                        kws = [a.arg for a in m.args.kwonlyargs]
+                        all_names.setdefault(m.name, []).append(any(x in GEN_PARAMS for x in names + kws))
+                        for i, x in enumerate(names):
+                            if x in GEN_PARAMS:
+                                take.setdefault(m.name, {"pos": i, "what": "%s:%s.%s" % (os.path.relpath(f, base), n.name, m.name)})
+    return {k: v for k, v in take.items() if all(all_names[k]) and k not in GENERIC_METHODS and not k.startswith("__")}
+
+
 def find_opt_attrs(trees, defs):
     """self.<attr> = <Optimizer(...)> / <...>.Optimizer(...) anywhere in the anchors."""
     opt_classes = {c0 for (c0, m) in defs["meth"] if m == "copy"}
@@ -807,11 +995,14 @@ def analyse(repo):
         opt_attrs = find_opt_attrs(pre, defs)
         ex = extra_facts(base)
         defs["opt_kwargs_has_random_state"] = "random_state" in ex["cbo_opt_kwargs"]
+        defs["pkg_methods"] = package_methods(base)
+        out["package_method_names"] = sorted(defs["pkg_methods"])
         out["obligation_defs"] = sorted([r["what"] for r in defs["func"].values()] + [r["what"] for r in defs["meth"].values()]) + ["table:" + t for t in sorted(defs["class_tables"])]
         out["optimizer_attrs"] = sorted(opt_attrs)
         for rel, src in srcs:
             fw = FileWalk(rel, src, set(attrs), setm, defs, opt_attrs)
             fw.check_parallel_shapes()
+            fw.check_escapes()
             fw.walk()
             fw.shared_state_sites(st_attrs)
             out["rng_sites"] += fw.rng_sites
@@ -865,7 +1056,24 @@ def extra_facts(base):
                                 default = dv.value
     if default is None:
         raise Closed("skopt/optimizer/optimizer.py: Optimizer.__init__ has no literal default for sample_max_size")
-    return dict(cbo_opt_kwargs=sorted(set(keys)), sample_max_size_default=default)
+    return dict(cbo_opt_kwargs=sorted(set(keys)), sample_max_size_default=default, seed_test_accepts_numpy_int=seed_test(base))
+
+
+def seed_test(base):
+    """Which integers does Search.__init__ turn into RandomState(seed)?  The test of the `if` whose body assigns
+    self._random_state = np.random.RandomState(random_state):  `type(random_state) is int` accepts Python ints only (a numpy integer falls
+    through to the unseeded branch);  isinstance(random_state, numbers.Integral) / (int, np.integer) accepts numpy integers as well."""
+    t = ast.parse(open(os.path.join(base, "hpo/_search.py")).read())
+    for n in ast.walk(t):
+        if isinstance(n, ast.If) and any(isinstance(b, ast.Assign) and dotted(b.targets[0]) == "self._random_state" and isinstance(b.value, ast.Call)
+                                         and dotted(b.value.func).endswith("RandomState") and b.value.args for b in n.body):
+            test = ast.unparse(n.test).replace(" ", "")
+            if test in SEED_TESTS_PY:
+                return False
+            if test in SEED_TESTS_ANY:
+                return True
+            raise Closed("hpo/_search.py:%d: test of the seeded branch not recognised: %s" % (n.lineno, ast.unparse(n.test)))
+    raise Closed("hpo/_search.py: no `if ...: self._random_state = np.random.RandomState(random_state)`")
 
 
 if __name__ == "__main__":
@@ -875,7 +1083,7 @@ if __name__ == "__main__":
     r = analyse(sys.argv[1] if len(sys.argv) > 1 else "/repo")
     print("ok", r["ok"], r["reason"])
     print("rng_attrs", r["rng_attrs"])
-    print("obligation defs", r.get("obligation_defs"), r.get("optimizer_attrs"), "state attrs", r.get("state_attrs"))
+    print("obligation defs", r.get("obligation_defs"), r.get("optimizer_attrs"), "state attrs", r.get("state_attrs"), "pkg methods", r.get("package_method_names"))
     for s in r["rng_sites"]:
         print("%-30s %4d %-34s %-44s %-10s %s" % (s["file"], s["line"], s["func"], s["callee"], s["cls"], s["guard"][:60]))
     print()
